@@ -62,9 +62,9 @@ def main : IO Unit := do
     if !(getRowOkWith baseMaps[r.fam]? r) || !(raiseOk families r) then
       IO.println s!"get {r.fam} {r.meth} [{showL r.fixed}] [{showL r.expl}] {r.mode}"
   for r in ctorRows do
-    if !(ctorRowOk r) then IO.println s!"ctor {r.fam} [{showL r.given}] [{showL r.fixed}] {r.order}"
+    if !(ctorRowOk families r) then IO.println s!"ctor {r.fam} [{showL r.given}] [{showL r.fixed}] {r.order}"
   for r in condRows do
-    if !(condRowOk r) then IO.println s!"cond {r.fam} [{showL r.fixed}]"
+    if !(condRowOk families r) then IO.println s!"cond {r.fam} [{showL r.fixed}]"
   for r in fitRows do
     if !(fitTableOk families scipyShapes baseMaps [r]) then IO.println s!"fit {r.fam} [{showL r.fixed}]"
   for r in lsqRows do
